@@ -64,3 +64,95 @@ def gen_ops(rng, tier, ctx=None):
                     if w != u and w != v and rng.random() < 0.5:
                         vals[w] = _sg(rng, _mag(rng, rng.choice([0, 1, 2, 17, 18, 2 * big + 9])))
                     yield "alias_mul %x %x %x 0 %s" % (w, u, v, " ".join(hx(t) for t in vals))
+    # mpz_addmul / mpz_submul: every (w, x, y); one-limb y (mpz_aorsmul_1), w = 0 (product straight into w), w = x, w = y, x = y,
+    # cancellation w = -+x*y (zero result), |w| < |x*y| (the sign flips), carry into a new limb, all sign combinations
+    for fn in ("addmul", "submul"):
+        for w in range(4):
+            for x in range(4):
+                for y in range(4):
+                    for _ in range(reps):
+                        xv = _sg(rng, _mag(rng, rng.choice([0, 1, 1, 2, 3, big])))
+                        yv = _sg(rng, _mag(rng, rng.choice([0, 1, 1, 2, 3, big])))
+                        if rng.random() < 0.15: xv = _sg(rng, (1 << (64 * rng.choice([1, 2, 3]))) - 1)
+                        if rng.random() < 0.15: yv = _sg(rng, (1 << (64 * rng.choice([1, 2]))) - 1)
+                        vals = [_sg(rng, _mag(rng, rng.choice([0, 1, 2, 5, 2 * big + 2]))) for _ in range(4)]
+                        vals[x] = xv
+                        if y != x: vals[y] = yv
+                        if w != x and w != y:
+                            k = rng.randrange(6)
+                            p = vals[x] * vals[y]
+                            if k == 0: vals[w] = 0
+                            elif k == 1: vals[w] = p if fn == "submul" else -p
+                            elif k == 2: vals[w] = (p if fn == "submul" else -p) + rng.choice([1, -1, 1 << 64, -(1 << 64)])
+                            elif k == 3: vals[w] = _sg(rng, abs(p) >> rng.choice([1, 64, 65]))
+                            elif k == 4: vals[w] = _sg(rng, (1 << (64 * max(1, (abs(p).bit_length() + 63) // 64))) - 1)
+                        yield "alias_%s %x %x %x 0 %s" % (fn, w, x, y, " ".join(hx(t) for t in vals))
+    # mpz_gcdext: every (g, s, t, a, b) with g, s, t pairwise distinct, s / t possibly NULL (7): four variables only, so the
+    # outputs are the operands most of the time.  asize < bsize (swap), b = 0 / a = 0 exit, |a| = |b|, b | a (s = 0), common factors,
+    # one-limb operands, all signs
+    def gx():
+        k = rng.randrange(9)
+        c = _mag(rng, rng.choice([0, 1, 1, 2])) or 1
+        a = c * (_mag(rng, rng.choice([1, 1, 2, 3, big // 2])))
+        b = c * (_mag(rng, rng.choice([1, 1, 2, 3, big // 2])))
+        if k == 0: b = 0
+        elif k == 1: a = 0
+        elif k == 2: b = a
+        elif k == 3: a = b * (_mag(rng, rng.choice([1, 2])))
+        elif k == 4: a, b = rng.choice([1, 2, 6, (1 << 64) - 1]), rng.choice([1, 3, 4, 1 << 63])
+        elif k == 5 and a and b: b = 2 * __import__("math").gcd(a, b) if rng.random() < 0.5 else b
+        if rng.random() < 0.03: a = b = 0
+        return _sg(rng, a), _sg(rng, b)
+    outs = [0, 1, 2, 3]
+    for g in outs:
+        for s in outs + [7]:
+            if s == g: continue
+            for t in outs + [7]:
+                if t == g or (t == s and t != 7): continue
+                for a in range(4):
+                    for b in range(4):
+                        for _ in range(1 if tier == "quick" else 12):
+                            av, bv = gx()
+                            vals = [_sg(rng, _mag(rng, rng.choice([0, 1, 1, 2, 4]))) for _ in range(4)]
+                            vals[a] = av
+                            if b != a: vals[b] = bv
+                            yield "alias_gcdext %x %x %x %x %x %s" % (g, s, t, a, b, " ".join(hx(v) for v in vals))
+    # mpz_powm: every (r, b, e, m); odd / even modulus / modulus with low zero limbs, m = +-1, m = 0 (DIVIDE_BY_ZERO), e = 0, 1,
+    # negative (inverse exists or not), two limbs; b = 0, negative, longer than m
+    def modulus():
+        k = rng.randrange(7)
+        m = _mag(rng, rng.choice([1, 1, 2, 3, 5]))
+        if k == 0: m |= 1
+        elif k == 1: m = (m | 1) << rng.choice([1, 5, 63])
+        elif k == 2: m = (m | 1) << (64 * rng.choice([1, 2]) + rng.choice([0, 3]))
+        elif k == 3: m = rng.choice([1, 1, 2, 3, 1 << 64])
+        if rng.random() < 0.02: m = 0
+        return _sg(rng, m)
+    def expo():
+        k = rng.randrange(8)
+        if k == 0: return 0
+        if k == 1: return 1
+        if k == 2: return -rng.choice([1, 2, 3, 65537])
+        if k == 3: return rng.getrandbits(rng.choice([65, 100, 128])) | 1
+        return rng.getrandbits(rng.randrange(1, 64)) + 2
+    for r in range(4):
+        for b in range(4):
+            for e in range(4):
+                for m in range(4):
+                    for _ in range(2 if tier == "quick" else 20):
+                        vals = [_sg(rng, _mag(rng, rng.choice([0, 1, 1, 2, 6]))) for _ in range(4)]
+                        vals[b] = _sg(rng, _mag(rng, rng.choice([0, 1, 1, 2, 3, 7])))
+                        vals[m] = modulus()
+                        if e != m:
+                            vals[e] = expo()
+                            if e == b and rng.random() < 0.5: vals[e] = abs(vals[e]) + 3
+                        yield "alias_powm %x %x %x %x %s" % (r, b, e, m, " ".join(hx(v) for v in vals))
+    for r in range(4):
+        for b in range(4):
+            for m in range(4):
+                for _ in range(3 if tier == "quick" else 30):
+                    vals = [_sg(rng, _mag(rng, rng.choice([0, 1, 1, 2, 6]))) for _ in range(4)]
+                    vals[b] = _sg(rng, _mag(rng, rng.choice([0, 1, 1, 2, 3, 7])))
+                    vals[m] = modulus()
+                    el = rng.choice([0, 1, 2, 3, 7, 18, 19, 20, 21, 1000, 65537, (1 << 64) - 1, rng.getrandbits(rng.randrange(1, 65))])
+                    yield "alias_powm_ui %x %x %x %x %s" % (r, b, m, el, " ".join(hx(v) for v in vals))
